@@ -1,4 +1,7 @@
 """C01 — step-groups run in order, fail fast, and route to success/failure handlers."""
+import copy
+
+from core import fail
 from props.engine_common import RefProp, EngineProp
 
 
@@ -30,3 +33,32 @@ class Prop(RefProp):
                 gen_pipes.shared_failure_handler(rng, case)
             cases.append(case)
         return cases
+
+    def run_impl(self, case):
+        """the run, then the same call again with the very same argument objects (groups list, ...):
+        every choice of arguments must give its result again, and the caller's objects stay as given."""
+        import engine
+        given = copy.deepcopy([case.get('groups'), case.get('success'), case.get('failure')])
+        obs = engine.run_case(case)
+        again = engine.run_case(case)
+        now = [case.get('groups'), case.get('success'), case.get('failure')]
+        obs['rerun'] = {
+            'args_unchanged': now == given,
+            'args_now': now,
+            'same': (again['outcome'][:2] == obs['outcome'][:2]
+                     and [e['l'][0] for e in again['trace']] == [e['l'][0] for e in obs['trace']]),
+            'tags_again': [e['l'][0] for e in again['trace']],
+        }
+        if case.get('groups') is not None:
+            case['groups'] = given[0]
+        return obs
+
+    def monitor(self, case, obs):
+        out = super().monitor(case, obs)
+        rr = obs.get('rerun')
+        if rr and not rr['args_unchanged']:
+            out.append(fail('arguments-mutated', f'the run changed the caller\'s groups/success/failure arguments to {rr["args_now"]!r}'))
+        if rr and not rr['same']:
+            out.append(fail('rerun-differs', f'the same call again executed {rr["tags_again"]!r}, the first time '
+                                             f'{[e["l"][0] for e in obs["trace"]]!r}'))
+        return out
